@@ -129,6 +129,7 @@ impl Property for C13 {
             let at = if rng.chance(1, 2) { ops.len() } else { rng.usize_below(ops.len() + 1) };
             ops.insert(at, BOp::SetVersion(1, rng.below(7) as u8));
         }
+        crate::props::c12::repeat_methods(rng, &mut ops);
         Trace { ops, probe_at_end: rng.chance(1, 2) }
     }
 
